@@ -17,6 +17,30 @@ VERIF = os.path.dirname(os.path.dirname(os.path.abspath(__file__)))
 WORK = os.environ.get("VERIF_WORK", os.path.join(VERIF, ".work"))
 
 
+UNEXPLORED = []   # (section, reason) of the current run
+
+
+class section:
+    """a group of obligations over one function. If the encoder cannot express the function as it
+    is written in this tree (a construct outside the MIR subset, an unexpected signature), the
+    group is reported as UNEXPLORED - it is neither a pass nor a violation - and the other groups
+    are still decided."""
+
+    def __init__(self, name, log):
+        self.name, self.log = name, log
+
+    def __enter__(self):
+        return self
+
+    def __exit__(self, et, ev, tb):
+        if et is not None and issubclass(et, (Unsupported, AttributeError, KeyError, IndexError, TypeError)):
+            reason = "%s: %s" % (et.__name__, ev)
+            UNEXPLORED.append((self.name, reason[:300]))
+            self.log("  UNEXPLORED %s :: %s" % (self.name, reason[:300]))
+            return True
+        return False
+
+
 def replays_dir(prop):
     """counterexamples of the registered commands go to /verif/replays/<id>, those of experiments
     (scratch repository, other work directory) to the scratch work directory"""
@@ -203,14 +227,7 @@ def run_c19(mir_text, log, tier):
     mach = M.Machine(funcs, c19_models())
     sol = Solver2(log, timeout_s=(300 if tier == "quick" else 1200))
     problems = []  # (query, verdict, model)
-
-    f_valid = mach.find("::is_budget_valid")
-    f_pad = mach.find("::get_padding")
-    f_c2w = mach.find(">::from", param_types=["Cost"], ret="U32Weight")
-    f_w2c = mach.find(">::from", param_types=["U32Weight"], ret="Cost")
-    f_c2bw = mach.find(">::from", param_types=["Cost"], ret="bitcoin::Weight")
-    f_bw2c = mach.find(">::from", param_types=["bitcoin::Weight"], ret="Cost")
-    f_bw2w = mach.find(">::from", param_types=["bitcoin::Weight"], ret="U32Weight")
+    fx = {"valid": None, "pad": None}
 
     cost = z3.BitVec("cost", 32)
     S = z3.BitVec("S", 64)      # serialized size of the witness stack
@@ -237,47 +254,62 @@ def run_c19(mir_text, log, tier):
         sol.add(name, extra + [z3.Or(pan)], vars_for_model=mv)
 
     # Q1: is_budget_valid <=> spec
-    o_valid = outcomes(f_valid, [Adt("Cost", [cost]), W(S)])
-    no_panic("Q5a is_budget_valid never panics (S<2^32)", o_valid, dom)
-    rets = [(c, v) for (c, k, v) in o_valid if k == "ret"]
-    for i, (c, v) in enumerate(rets):
-        sol.add("Q1.%d is_budget_valid <=> ceil(cost/1000) <= S+50" % i, dom + [c, v != spec_valid(cost, S)], vars_for_model=mv)
+    with section("Q1,Q5a Cost::is_budget_valid", log):
+        f_valid = mach.find("::is_budget_valid")
+        o_valid = outcomes(f_valid, [Adt("Cost", [cost]), W(S)])
+        qs = []
+        rets = [(c, v) for (c, k, v) in o_valid if k == "ret"]
+        for i, (c, v) in enumerate(rets):
+            qs.append(("Q1.%d is_budget_valid <=> ceil(cost/1000) <= S+50" % i, dom + [c, v != spec_valid(cost, S)]))
+        no_panic("Q5a is_budget_valid never panics (S<2^32)", o_valid, dom)
+        for (nm_, as_) in qs:
+            sol.add(nm_, as_, vars_for_model=mv)
+        fx["valid"] = f_valid
 
     # Q2..Q4, Q7 on get_padding, one query per path of get_padding
-    o_pad = outcomes(f_pad, [Adt("Cost", [cost]), W(S)])
-    no_panic("Q5b get_padding never panics (S<2^32)", o_pad, dom)
-    pads = [(c, v) for (c, k, v) in o_pad if k == "ret"]
-    some_paths = 0
-    for i, (c, v) in enumerate(pads):
-        if not isinstance(v, Adt) or v.variant not in ("None", "Some"):
-            raise Unsupported("get_padding returns %r" % (v,))
-        if v.variant == "None":
-            sol.add("Q2.%d get_padding None => within budget" % i, dom + [c, z3.Not(spec_valid(cost, S))], vars_for_model=mv)
-            continue
-        some_paths += 1
-        vec = v.fields[0]
-        if not (isinstance(vec, Opaque) and vec.tag == "vec"):
-            raise Unsupported("annex is %r" % (vec,))
-        L = vec.data["len"]
-        sol.add("Q2.%d get_padding Some => over budget" % i, dom + [c, spec_valid(cost, S)], vars_for_model=mv)
-        sol.add("Q7.%d annex is 0x50 followed by zero bytes" % i,
-                dom + [c, z3.Or(vec.data["first"] != 0x50, vec.data["fill"] != 0)], vars_for_model=mv)
-        S2 = S + cs(L) + L + (cs(n + 1) - cs(n))
-        bad3 = []
-        for (c2, k2, v2) in outcomes(f_valid, [Adt("Cost", [cost]), W(S2)]):
-            bad3.append(c2 if k2 == "panic" else z3.And(c2, z3.Not(v2)))
-        sol.add("Q3.%d appended annex brings the cost within budget" % i, dom + [c, z3.Or(bad3)], vars_for_model=mv)
-        # minimality: one byte shorter (still holding the 0x50 tag)
-        L1 = L - 1
-        S3 = S + cs(L1) + L1
-        bad4 = []
-        for (c3, k3, v3) in outcomes(f_valid, [Adt("Cost", [cost]), W(S3)]):
-            if k3 == "ret":
-                bad4.append(z3.And(c3, v3))
-        sol.add("Q4.%d annex one byte shorter stays over budget (count off CompactSize edge)" % i,
-                dom + [c, z3.UGE(L, 2), cs(n + 1) == cs(n), z3.Or(bad4)], vars_for_model=mv)
-    if some_paths == 0:
-        raise Unsupported("get_padding has no path returning Some")
+    with section("Q2,Q3,Q4,Q5b,Q7 Cost::get_padding", log):
+        if fx["valid"] is None:
+            raise Unsupported("is_budget_valid (needed to judge the padded stack) is not encoded")
+        f_valid = fx["valid"]
+        f_pad = mach.find("::get_padding")
+        o_pad = outcomes(f_pad, [Adt("Cost", [cost]), W(S)])
+        pads = [(c, v) for (c, k, v) in o_pad if k == "ret"]
+        qs = []
+        some_paths = 0
+        for i, (c, v) in enumerate(pads):
+            if not isinstance(v, Adt) or v.variant not in ("None", "Some"):
+                raise Unsupported("get_padding returns %r" % (v,))
+            if v.variant == "None":
+                qs.append(("Q2.%d get_padding None => within budget" % i, dom + [c, z3.Not(spec_valid(cost, S))]))
+                continue
+            some_paths += 1
+            vec = v.fields[0]
+            if not (isinstance(vec, Opaque) and vec.tag == "vec"):
+                raise Unsupported("annex is %r" % (vec,))
+            L = vec.data["len"]
+            qs.append(("Q2.%d get_padding Some => over budget" % i, dom + [c, spec_valid(cost, S)]))
+            qs.append(("Q7.%d annex is 0x50 followed by zero bytes" % i,
+                       dom + [c, z3.Or(vec.data["first"] != 0x50, vec.data["fill"] != 0)]))
+            S2 = S + cs(L) + L + (cs(n + 1) - cs(n))
+            bad3 = []
+            for (c2, k2, v2) in outcomes(f_valid, [Adt("Cost", [cost]), W(S2)]):
+                bad3.append(c2 if k2 == "panic" else z3.And(c2, z3.Not(v2)))
+            qs.append(("Q3.%d appended annex brings the cost within budget" % i, dom + [c, z3.Or(bad3)]))
+            # minimality: one byte shorter (still holding the 0x50 tag)
+            L1 = L - 1
+            S3 = S + cs(L1) + L1
+            bad4 = []
+            for (c3, k3, v3) in outcomes(f_valid, [Adt("Cost", [cost]), W(S3)]):
+                if k3 == "ret":
+                    bad4.append(z3.And(c3, v3))
+            qs.append(("Q4.%d annex one byte shorter stays over budget (count off CompactSize edge)" % i,
+                       dom + [c, z3.UGE(L, 2), cs(n + 1) == cs(n), z3.Or(bad4)]))
+        if some_paths == 0:
+            raise Unsupported("get_padding has no path returning Some")
+        no_panic("Q5b get_padding never panics (S<2^32)", o_pad, dom)
+        for (nm_, as_) in qs:
+            sol.add(nm_, as_, vars_for_model=mv)
+        fx["pad"] = f_pad
 
     # Q6 conversions
     c1 = z3.BitVec("c1", 32)
@@ -299,48 +331,57 @@ def run_c19(mir_text, log, tier):
             r = x if r is None else z3.If(c, x, r)
         return r
 
-    pan1, r1 = single_ret(f_c2w, [Adt("Cost", [c1])], "c2w")
-    pan2, r2 = single_ret(f_c2w, [Adt("Cost", [c2_])], "c2w")
-    wt1 = val_of(r1, lambda v: v.fields[0])
-    wt2 = val_of(r2, lambda v: v.fields[0])
-    if pan1:
-        sol.add("Q6a Cost->weight never panics", [z3.Or(pan1)], vars_for_model=cv)
-    else:
-        sol.trivial("Q6a Cost->weight never panics", "no panic path exists (syntactically)")
-    sol.add("Q6b Cost->weight of 0 is 0", [c1 == 0, wt1 != 0], vars_for_model=cv)
-    sol.add("Q6c Cost->weight rounds up: weight*1000 >= cost > (weight-1)*1000 (cost <= CONSENSUS_MAX)",
-            [z3.ULE(c1, CONSENSUS_MAX), c1 != 0,
-             z3.Not(z3.And(z3.UGE(bv64(wt1) * 1000, bv64(c1)), z3.ULT((bv64(wt1) - 1) * 1000, bv64(c1))))], vars_for_model=cv)
-    sol.add("Q6d Cost->weight monotone (all u32 costs)", [z3.ULE(c1, c2_), z3.UGT(wt1, wt2)], vars_for_model=cv)
-    pw, rw = single_ret(f_w2c, [Adt("U32Weight", [w1])], "w2c")
-    pw2, rw2 = single_ret(f_w2c, [Adt("U32Weight", [w2])], "w2c")
-    ct1 = val_of(rw, lambda v: v.fields[0])
-    ct2 = val_of(rw2, lambda v: v.fields[0])
-    sol.add("Q6e weight->Cost monotone", [z3.ULE(w1, w2), z3.UGT(ct1, ct2)], vars_for_model=cv)
-    sol.add("Q6f weight->Cost = weight*1000 below saturation", [z3.ULE(w1, 4294967), bv64(ct1) != bv64(w1) * 1000], vars_for_model=cv)
-    prt, rrt = single_ret(f_c2w, [Adt("Cost", [ct1])], "rt")
-    back = val_of(rrt, lambda v: v.fields[0])
-    sol.add("Q6g weight->Cost->weight is the identity (weight <= 4 294 966)", [z3.ULE(w1, 4294966), back != w1], vars_for_model=cv)
+    with section("Q6a-g Cost <-> U32Weight conversions", log):
+        f_c2w = mach.find(">::from", param_types=["Cost"], ret="U32Weight")
+        f_w2c = mach.find(">::from", param_types=["U32Weight"], ret="Cost")
+        pan1, r1 = single_ret(f_c2w, [Adt("Cost", [c1])], "c2w")
+        pan2, r2 = single_ret(f_c2w, [Adt("Cost", [c2_])], "c2w")
+        wt1 = val_of(r1, lambda v: v.fields[0])
+        wt2 = val_of(r2, lambda v: v.fields[0])
+        pw, rw = single_ret(f_w2c, [Adt("U32Weight", [w1])], "w2c")
+        pw2, rw2 = single_ret(f_w2c, [Adt("U32Weight", [w2])], "w2c")
+        ct1 = val_of(rw, lambda v: v.fields[0])
+        ct2 = val_of(rw2, lambda v: v.fields[0])
+        prt, rrt = single_ret(f_c2w, [Adt("Cost", [ct1])], "rt")
+        back = val_of(rrt, lambda v: v.fields[0])
+        if pan1:
+            sol.add("Q6a Cost->weight never panics", [z3.Or(pan1)], vars_for_model=cv)
+        else:
+            sol.trivial("Q6a Cost->weight never panics", "no panic path exists (syntactically)")
+        sol.add("Q6b Cost->weight of 0 is 0", [c1 == 0, wt1 != 0], vars_for_model=cv)
+        sol.add("Q6c Cost->weight rounds up: weight*1000 >= cost > (weight-1)*1000 (cost <= CONSENSUS_MAX)",
+                [z3.ULE(c1, CONSENSUS_MAX), c1 != 0,
+                 z3.Not(z3.And(z3.UGE(bv64(wt1) * 1000, bv64(c1)), z3.ULT((bv64(wt1) - 1) * 1000, bv64(c1))))], vars_for_model=cv)
+        sol.add("Q6d Cost->weight monotone (all u32 costs)", [z3.ULE(c1, c2_), z3.UGT(wt1, wt2)], vars_for_model=cv)
+        sol.add("Q6e weight->Cost monotone", [z3.ULE(w1, w2), z3.UGT(ct1, ct2)], vars_for_model=cv)
+        sol.add("Q6f weight->Cost = weight*1000 below saturation", [z3.ULE(w1, 4294967), bv64(ct1) != bv64(w1) * 1000], vars_for_model=cv)
+        sol.add("Q6g weight->Cost->weight is the identity (weight <= 4 294 966)", [z3.ULE(w1, 4294966), back != w1], vars_for_model=cv)
     wu = z3.BitVec("wu", 64)
-    pb, rb = single_ret(f_c2bw, [Adt("Cost", [c1])], "c2bw")
-    bwv = val_of(rb, lambda v: v.data["wu"])
-    sol.add("Q6h Cost->bitcoin::Weight = ceil(cost/1000)",
-            [z3.ULE(c1, CONSENSUS_MAX),
-             z3.Not(z3.If(c1 == 0, bwv == 0, z3.And(z3.UGE(bwv * 1000, bv64(c1)), z3.ULT((bwv - 1) * 1000, bv64(c1)))))], vars_for_model=cv)
-    pb2, rb2 = single_ret(f_bw2c, [Opaque("Weight", {"wu": wu, "ty": "Weight"})], "bw2c")
-    cfrom = val_of(rb2, lambda v: v.fields[0])
-    sol.add("Q6i bitcoin::Weight->Cost = min(wu*1000, u32::MAX), no truncation",
-            [bv64(cfrom) != z3.If(z3.UGT(wu, 4294967), z3.BitVecVal(0xFFFFFFFF, 64), wu * 1000)], vars_for_model=[wu])
-    pb3, rb3 = single_ret(f_bw2w, [Opaque("Weight", {"wu": wu, "ty": "Weight"})], "bw2w")
-    wfrom = val_of(rb3, lambda v: v.fields[0])
-    sol.add("Q6j bitcoin::Weight->U32Weight saturates, never truncates",
-            [bv64(wfrom) != z3.If(z3.UGT(wu, 0xFFFFFFFF), z3.BitVecVal(0xFFFFFFFF, 64), wu)], vars_for_model=[wu])
+    with section("Q6h Cost -> bitcoin::Weight", log):
+        f_c2bw = mach.find(">::from", param_types=["Cost"], ret="bitcoin::Weight")
+        pb, rb = single_ret(f_c2bw, [Adt("Cost", [c1])], "c2bw")
+        bwv = val_of(rb, lambda v: v.data["wu"])
+        sol.add("Q6h Cost->bitcoin::Weight = ceil(cost/1000)",
+                [z3.ULE(c1, CONSENSUS_MAX),
+                 z3.Not(z3.If(c1 == 0, bwv == 0, z3.And(z3.UGE(bwv * 1000, bv64(c1)), z3.ULT((bwv - 1) * 1000, bv64(c1)))))], vars_for_model=cv)
+    with section("Q6i bitcoin::Weight -> Cost", log):
+        f_bw2c = mach.find(">::from", param_types=["bitcoin::Weight"], ret="Cost")
+        pb2, rb2 = single_ret(f_bw2c, [Opaque("Weight", {"wu": wu, "ty": "Weight"})], "bw2c")
+        cfrom = val_of(rb2, lambda v: v.fields[0])
+        sol.add("Q6i bitcoin::Weight->Cost = min(wu*1000, u32::MAX), no truncation",
+                [bv64(cfrom) != z3.If(z3.UGT(wu, 4294967), z3.BitVecVal(0xFFFFFFFF, 64), wu * 1000)], vars_for_model=[wu])
+    with section("Q6j bitcoin::Weight -> U32Weight", log):
+        f_bw2w = mach.find(">::from", param_types=["bitcoin::Weight"], ret="U32Weight")
+        pb3, rb3 = single_ret(f_bw2w, [Opaque("Weight", {"wu": wu, "ty": "Weight"})], "bw2w")
+        wfrom = val_of(rb3, lambda v: v.fields[0])
+        sol.add("Q6j bitcoin::Weight->U32Weight saturates, never truncates",
+                [bv64(wfrom) != z3.If(z3.UGT(wu, 0xFFFFFFFF), z3.BitVecVal(0xFFFFFFFF, 64), wu)], vars_for_model=[wu])
 
     for q in sol.run_all():
         if q["verdict"] != "holds":
             problems.append((q["name"], q["verdict"], q.get("model")))
 
-    return mach, sol, problems, (f_valid, f_pad, cost, S, n)
+    return mach, sol, problems, (fx["valid"], fx["pad"], cost, S, n)
 
 
 def concrete_eval(mach, f_valid, f_pad, cost_v, S_v):
@@ -364,6 +405,8 @@ def concrete_eval(mach, f_valid, f_pad, cost_v, S_v):
     res = {}
     k, v, m = pick(mach.exec_fn(f_valid, [Adt("Cost", [z3.BitVecVal(cost_v, 32)]), W(S_v)]))
     res["valid"] = None if k == "panic" else z3.is_true(m.eval(v, model_completion=True))
+    if f_pad is None:
+        return res
     k, v, m = pick(mach.exec_fn(f_pad, [Adt("Cost", [z3.BitVecVal(cost_v, 32)]), W(S_v)]))
     if k == "panic":
         res["pad"] = "panic"
@@ -450,11 +493,23 @@ def run(prop, spec, tier, seed):
     os.makedirs(WORK, exist_ok=True)
     exit_code = 0
     ev_extra = {}
+    del UNEXPLORED[:]
     try:
         mir, dump_s = dump_mir()
         log("[%s] MIR of /repo dumped in %.1fs (%d lines)" % (prop, dump_s, mir.count("\n")))
         runner = {"C19": run_c19_full, "C07": run_c07_full, "C14": run_c14_full}[prop]
         exit_code, ev_extra = runner(prop, mir, log, tier)
+        if UNEXPLORED:
+            # not a verdict on the property: the obligations below could not be expressed for the
+            # code as it is written in this tree; everything else was decided
+            for (sec, why) in UNEXPLORED:
+                print("UNEXPLORED: property=%s obligations=%r reason=%s" % (prop, sec, why))
+            ev_extra["unexplored"] = [{"obligations": sec, "reason": why} for (sec, why) in UNEXPLORED]
+            ev_extra["explanation"] = ("%d group(s) of obligations were NOT explored on this tree (encoder subset); "
+                                       "the exit status speaks for the explored ones only" % len(UNEXPLORED))
+            if not ev_extra.get("obligations") and exit_code == 0:
+                log("[%s] nothing could be explored on this tree" % prop)
+                exit_code = 2
     except Unsupported as e:
         log("[%s] INCONCLUSIVE: %s" % (prop, e))
         exit_code = 2
@@ -481,11 +536,14 @@ def run_c19_full(prop, mir, log, tier):
     validated = 0
     samples = []
     for (c, items) in VECTORS:
+        if f_valid is None:
+            log("  translator validation skipped: is_budget_valid is not encoded on this tree")
+            break
         s = ser_len(items)
         enc = concrete_eval(mach, f_valid, f_pad, c, s)
         nat = native(["budget", c] + items)
         validated += 1
-        ok = ("error" not in nat and enc.get("valid") == nat["valid"] and enc.get("pad") == nat["padding_len"]
+        ok = ("error" not in nat and enc.get("valid") == nat["valid"] and (f_pad is None or enc.get("pad") == nat["padding_len"])
               and nat["serialized_len"] == s)
         if not ok:
             disagreements += 1
@@ -670,45 +728,47 @@ def run_c07(mir_text, log, tier):
         raise Unsupported("limits are not below usize::MAX/2 as limits.rs documents")
 
     # ---- layer 3: check_program / for_program
-    f_check = mach.find("::check_program")
-    f_for = mach.find("::for_program")
     P = Ref(Opaque("program"))
-    outs = mach.exec_fn(f_check, [P])
-    pan = [c for (c, k, v) in outs if k == "panic"]
-    if pan:
-        sol.add("L3a check_program never panics (all usize widths/bounds)", [z3.Or(pan)], vars_for_model=pv)
-    else:
-        sol.trivial("L3a check_program never panics", "no panic path exists (syntactically)")
     io = ext(src) + ext(tgt)
     spec_ok = z3.And(z3.ULE(ext(src), mc), z3.ULE(ext(tgt), mc), z3.ULE(ext(cells), mc), z3.ULE(io, mc),
                      z3.ULE(io + ext(cells), mc), z3.ULE(ext(frames), mf), z3.ULE(ext(frames) + iof, mf))
-    bad = []
-    for (c, k, v) in outs:
-        if k == "ret":
-            if not (isinstance(v, Adt) and v.variant in ("Ok", "Err")):
-                raise Unsupported("check_program returns %r" % (v,))
-            bad.append(z3.And(c, spec_ok if v.variant == "Err" else z3.Not(spec_ok)))
-    sol.add("L3b check_program Err <=> one of the seven documented sums exceeds its limit", [z3.Or(bad)], vars_for_model=pv)
-    outs2 = mach.exec_fn(f_for, [P])
-    pan2 = [c for (c, k, v) in outs2 if k == "panic"]
-    if pan2:
-        sol.add("L3c for_program never panics (arithmetic after the check cannot overflow)", [z3.Or(pan2)], vars_for_model=pv)
-    else:
-        sol.trivial("L3c for_program never panics", "no panic path exists (syntactically)")
-    bad2 = []
-    for (c, k, v) in outs2:
-        if k != "ret":
-            continue
-        if v.variant == "Err":
-            bad2.append(z3.And(c, spec_ok))
+    with section("L3a,L3b LimitError::check_program", log):
+        f_check = mach.find("::check_program")
+        outs = mach.exec_fn(f_check, [P])
+        pan = [c for (c, k, v) in outs if k == "panic"]
+        bad = []
+        for (c, k, v) in outs:
+            if k == "ret":
+                if not (isinstance(v, Adt) and v.variant in ("Ok", "Err")):
+                    raise Unsupported("check_program returns %r" % (v,))
+                bad.append(z3.And(c, spec_ok if v.variant == "Err" else z3.Not(spec_ok)))
+        if pan:
+            sol.add("L3a check_program never panics (all usize widths/bounds)", [z3.Or(pan)], vars_for_model=pv)
         else:
-            bm = v.fields[0]
-            data, rd, wr = bm.fields[0], bm.fields[2], bm.fields[3]
-            enough = z3.And(z3.UGE(ext(data.data["len"]) * 8, io + ext(cells)),
-                            ext(rd.data["cap"]) == ext(frames) + iof, ext(wr.data["cap"]) == ext(frames) + iof)
-            bad2.append(z3.And(c, z3.Or(z3.Not(spec_ok), z3.Not(enough))))
-    sol.add("L3d for_program: refuses iff over a limit; else allocates >= src+tgt+extra_cells bits and extra_frames+2 frames",
-            [z3.Or(bad2)], vars_for_model=pv)
+            sol.trivial("L3a check_program never panics", "no panic path exists (syntactically)")
+        sol.add("L3b check_program Err <=> one of the seven documented sums exceeds its limit", [z3.Or(bad)], vars_for_model=pv)
+    with section("L3c,L3d BitMachine::for_program", log):
+        f_for = mach.find("::for_program")
+        outs2 = mach.exec_fn(f_for, [P])
+        pan2 = [c for (c, k, v) in outs2 if k == "panic"]
+        bad2 = []
+        for (c, k, v) in outs2:
+            if k != "ret":
+                continue
+            if v.variant == "Err":
+                bad2.append(z3.And(c, spec_ok))
+            else:
+                bm = v.fields[0]
+                data, rd, wr = bm.fields[0], bm.fields[2], bm.fields[3]
+                enough = z3.And(z3.UGE(ext(data.data["len"]) * 8, io + ext(cells)),
+                                ext(rd.data["cap"]) == ext(frames) + iof, ext(wr.data["cap"]) == ext(frames) + iof)
+                bad2.append(z3.And(c, z3.Or(z3.Not(spec_ok), z3.Not(enough))))
+        if pan2:
+            sol.add("L3c for_program never panics (arithmetic after the check cannot overflow)", [z3.Or(pan2)], vars_for_model=pv)
+        else:
+            sol.trivial("L3c for_program never panics", "no panic path exists (syntactically)")
+        sol.add("L3d for_program: refuses iff over a limit; else allocates >= src+tgt+extra_cells bits and extra_frames+2 frames",
+                [z3.Or(bad2)], vars_for_model=pv)
 
     # ---- layer 2: each NodeBounds constructor keeps the invariant
     #   I(bound, actual) := bound >= actual  or  bound > limit (so the machine refuses)
@@ -745,114 +805,116 @@ def run_c07(mir_text, log, tier):
         ("disconnect", [BL, BR, w1, w2, w3], ext(w2) + ext(w3) + mx(ext(al), ext(ar)), 2 + mx(ext(gl), ext(gr))),
     ]
     for (nm, args, acells, aframes) in cases:
-        try:
+        with section("L2.%s NodeBounds::%s" % (nm, nm), log):
             cands = [g for g in funcs if g.name.startswith("analysis::") and g.name.endswith("::" + nm) and g.ret == "NodeBounds"]
             if len(cands) > 1 and all(c.params == cands[0].params for c in cands):
                 cands = cands[-1:]
             if len(cands) != 1:
                 raise Unsupported("NodeBounds::%s: %d MIR bodies" % (nm, len(cands)))
             outs = mach.exec_fn(cands[0], args)
-        except Unsupported:
-            raise
-        pan = [c for (c, k, v) in outs if k == "panic"]
-        if pan:
-            sol.add("L2.%s never panics (no overflow for any child bounds / widths)" % nm, hyp + [z3.Or(pan)], vars_for_model=lv)
-        else:
-            sol.trivial("L2.%s never panics" % nm, "no panic path exists (syntactically)")
-        badc, badf = [], []
-        for (c, k, v) in outs:
-            if k == "ret":
-                badc.append(z3.And(c, z3.Not(inv(v.fields[0], acells, mc))))
-                badf.append(z3.And(c, z3.Not(inv(v.fields[1], aframes, mf))))
-        sol.add("L2.%s extra_cells covers the interpreter's peak (or exceeds the limit)" % nm, hyp + [z3.Or(badc)], vars_for_model=lv)
-        sol.add("L2.%s extra_frames covers the interpreter's peak (or exceeds the limit)" % nm, hyp + [z3.Or(badf)], vars_for_model=lv)
+            pan = [c for (c, k, v) in outs if k == "panic"]
+            badc, badf = [], []
+            for (c, k, v) in outs:
+                if k == "ret":
+                    badc.append(z3.And(c, z3.Not(inv(v.fields[0], acells, mc))))
+                    badf.append(z3.And(c, z3.Not(inv(v.fields[1], aframes, mf))))
+            if pan:
+                sol.add("L2.%s never panics (no overflow for any child bounds / widths)" % nm, hyp + [z3.Or(pan)], vars_for_model=lv)
+            else:
+                sol.trivial("L2.%s never panics" % nm, "no panic path exists (syntactically)")
+            sol.add("L2.%s extra_cells covers the interpreter's peak (or exceeds the limit)" % nm, hyp + [z3.Or(badc)], vars_for_model=lv)
+            sol.add("L2.%s extra_frames covers the interpreter's peak (or exceeds the limit)" % nm, hyp + [z3.Or(badf)], vars_for_model=lv)
     # ---- layer 1 (glue): RedeemData::new passes the right widths to the constructors.
     # For each combinator the node's bounds, computed by the real RedeemData::new from its
     # children's cached data and arrows, keep the invariant w.r.t. the recurrence evaluated on
     # the children's *true* type widths.
-    try:
-        src_inner = open(os.path.join(REPO, "src", "node", "inner.rs")).read()
-        body = src_inner[src_inner.index("pub enum Inner"):]
-        body = body[body.index("{") + 1:body.index("\n}")]
-        variants = re.findall(r"^\s{4}([A-Z]\w*)", body, re.M)
-    except Exception as e:
-        raise Unsupported("cannot read the variant order of node::Inner: %s" % e)
-    if len(variants) != 16 or variants[0] != "Iden":
-        raise Unsupported("unexpected variants of node::Inner: %r" % variants)
-    vidx = {v: i for i, v in enumerate(variants)}
-    f_new = [g for g in funcs if g.name.startswith("redeem::") and g.name.endswith("::new") and g.ret == "RedeemData"]
-    if len(f_new) != 1:
-        raise Unsupported("RedeemData::new: %d MIR bodies" % len(f_new))
-    f_new = f_new[0]
-    gm = dict(mach.models)
-    for pat in (r"^Amr::\w+$", r"^Imr::\w+$", r"^Ihr::from_imr$", r"^<Cmr as Into<.*>>::into$", r"^<.* as From<Cmr>>::from$"):
-        gm[pat] = lambda mach_, name, args: [(M.T(), "ret", Opaque("root"))]
-    gm[r"^<Arc<RedeemData> as Deref>::deref$"] = M.m_deref
-    gm[r"^<&Arc<RedeemData> as Deref>::deref$"] = M.m_deref
+    def layer1():
+        try:
+            src_inner = open(os.path.join(REPO, "src", "node", "inner.rs")).read()
+            body = src_inner[src_inner.index("pub enum Inner"):]
+            body = body[body.index("{") + 1:body.index("\n}")]
+            variants = re.findall(r"^\s{4}([A-Z]\w*)", body, re.M)
+        except Exception as e:
+            raise Unsupported("cannot read the variant order of node::Inner: %s" % e)
+        if len(variants) != 16 or variants[0] != "Iden":
+            raise Unsupported("unexpected variants of node::Inner: %r" % variants)
+        vidx = {v: i for i, v in enumerate(variants)}
+        f_new = [g for g in funcs if g.name.startswith("redeem::") and g.name.endswith("::new") and g.ret == "RedeemData"]
+        if len(f_new) != 1:
+            raise Unsupported("RedeemData::new: %d MIR bodies" % len(f_new))
+        f_new = f_new[0]
+        gm = dict(mach.models)
+        for pat in (r"^Amr::\w+$", r"^Imr::\w+$", r"^Ihr::from_imr$", r"^<Cmr as Into<.*>>::into$", r"^<.* as From<Cmr>>::from$"):
+            gm[pat] = lambda mach_, name, args: [(M.T(), "ret", Opaque("root"))]
+        gm[r"^<Arc<RedeemData> as Deref>::deref$"] = M.m_deref
+        gm[r"^<&Arc<RedeemData> as Deref>::deref$"] = M.m_deref
 
-    def bw(mach_, name, args):
-        v = args[0]
-        while isinstance(v, Ref):
-            v = v.val
-        return [(M.T(), "ret", v.data["w"])]
-    gm[r"^Final::bit_width$"] = bw
-    gmach = M.Machine(funcs, gm)
-    orig_rvalue = gmach.rvalue
+        def bw(mach_, name, args):
+            v = args[0]
+            while isinstance(v, Ref):
+                v = v.val
+            return [(M.T(), "ret", v.data["w"])]
+        gm[r"^Final::bit_width$"] = bw
+        gmach = M.Machine(funcs, gm)
+        orig_rvalue = gmach.rvalue
 
-    def rvalue(env, f, dst, rv):
-        m = re.match(r"^discriminant\((.+)\)$", rv.strip())
-        if m:
-            v = gmach.read_place(env, m.group(1))
-            if isinstance(v, Adt) and v.name == "Inner":
-                return z3.BitVecVal(vidx[v.variant], 64)
-        return orig_rvalue(env, f, dst, rv)
-    gmach.rvalue = rvalue
+        def rvalue(env, f, dst, rv):
+            m = re.match(r"^discriminant\((.+)\)$", rv.strip())
+            if m:
+                v = gmach.read_place(env, m.group(1))
+                if isinstance(v, Adt) and v.name == "Inner":
+                    return z3.BitVecVal(vidx[v.variant], 64)
+            return orig_rvalue(env, f, dst, rv)
+        gmach.rvalue = rvalue
 
-    def fin(w):
-        return Ref(Opaque("final", {"w": w}))
-    a_s, a_t, l_s, l_t, r_s, r_t = [z3.BitVec(n, 64) for n in ("a_src", "a_tgt", "l_src", "l_tgt", "r_src", "r_tgt")]
-    gv = lv + [a_s, a_t, l_s, l_t, r_s, r_t]
-    arrow = Adt("FinalArrow", [fin(a_s), fin(a_t)])
+        def fin(w):
+            return Ref(Opaque("final", {"w": w}))
+        a_s, a_t, l_s, l_t, r_s, r_t = [z3.BitVec(n, 64) for n in ("a_src", "a_tgt", "l_src", "l_tgt", "r_src", "r_tgt")]
+        gv = lv + [a_s, a_t, l_s, l_t, r_s, r_t]
+        arrow = Adt("FinalArrow", [fin(a_s), fin(a_t)])
 
-    def data(cells, frames, cost_, s_, t_):
-        return Ref(Ref(Adt("RedeemData", [Opaque("amr"), Opaque("imr"), Opaque("ihr"),
-                                          Adt("FinalArrow", [fin(s_), fin(t_)]),
-                                          Adt("NodeBounds", [cells, frames, Adt("Cost", [cost_])])])))
-    Ld, Rd = data(cl, fl, kl, l_s, l_t), data(cr, fr, kr, r_s, r_t)
-    hidden = Opaque("cmr")
-    z66 = z3.BitVecVal(0, 66)
-    glue_cases = [
-        ("Iden", [], [], z66, z66), ("Unit", [], [], z66, z66),
-        ("InjL", [Ld], [], ext(al), ext(gl)), ("InjR", [Ld], [], ext(al), ext(gl)),
-        ("Take", [Ld], [], ext(al), ext(gl)), ("Drop", [Ld], [], ext(al), ext(gl)),
-        ("AssertL", [Ld, hidden], [], ext(al), ext(gl)), ("AssertR", [hidden, Ld], [], ext(al), ext(gl)),
-        ("Case", [Ld, Rd], [], mx(ext(al), ext(ar)), mx(ext(gl), ext(gr))),
-        ("Pair", [Ld, Rd], [], mx(ext(al), ext(ar)), mx(ext(gl), ext(gr))),
-        # comp: the middle type is the left child's target (= the right child's source)
-        ("Comp", [Ld, Rd], [l_t == r_s], ext(l_t) + mx(ext(al), ext(ar)), 1 + mx(ext(gl), ext(gr))),
-        # disconnect: frames of the left child's source and target types; right source is a component of the left target
-        ("Disconnect", [Ld, Rd], [z3.ULE(r_s, l_t)], ext(l_s) + ext(l_t) + mx(ext(al), ext(ar)), 2 + mx(ext(gl), ext(gr))),
-    ]
-    for (vn, fields, typing, acells, aframes) in glue_cases:
-        inner = Adt("Inner", fields, vn)
-        outs = gmach.exec_fn(f_new, [arrow, inner])
-        pan = [c for (c, k, v) in outs if k == "panic"]
-        if pan:
-            sol.add("L1.%s RedeemData::new never panics on well-typed children" % vn, hyp + typing + [z3.Or(pan)], vars_for_model=gv)
-        badc, badf = [], []
-        for (c, k, v) in outs:
-            if k == "ret":
-                nb = v.fields[4]
-                badc.append(z3.And(c, z3.Not(inv(nb.fields[0], acells, mc))))
-                badf.append(z3.And(c, z3.Not(inv(nb.fields[1], aframes, mf))))
-        sol.add("L1.%s RedeemData::new: cell bound built from the children's true type widths covers the peak" % vn,
-                hyp + typing + [z3.Or(badc)], vars_for_model=gv)
-        sol.add("L1.%s RedeemData::new: frame bound covers the peak" % vn, hyp + typing + [z3.Or(badf)], vars_for_model=gv)
-    for fn_ in gmach.encoded:
-        if fn_ not in mach.encoded:
-            mach.encoded.append(fn_)
-    mach.modelled += gmach.modelled
+        def data(cells, frames, cost_, s_, t_):
+            return Ref(Ref(Adt("RedeemData", [Opaque("amr"), Opaque("imr"), Opaque("ihr"),
+                                              Adt("FinalArrow", [fin(s_), fin(t_)]),
+                                              Adt("NodeBounds", [cells, frames, Adt("Cost", [cost_])])])))
+        Ld, Rd = data(cl, fl, kl, l_s, l_t), data(cr, fr, kr, r_s, r_t)
+        hidden = Opaque("cmr")
+        z66 = z3.BitVecVal(0, 66)
+        glue_cases = [
+            ("Iden", [], [], z66, z66), ("Unit", [], [], z66, z66),
+            ("InjL", [Ld], [], ext(al), ext(gl)), ("InjR", [Ld], [], ext(al), ext(gl)),
+            ("Take", [Ld], [], ext(al), ext(gl)), ("Drop", [Ld], [], ext(al), ext(gl)),
+            ("AssertL", [Ld, hidden], [], ext(al), ext(gl)), ("AssertR", [hidden, Ld], [], ext(al), ext(gl)),
+            ("Case", [Ld, Rd], [], mx(ext(al), ext(ar)), mx(ext(gl), ext(gr))),
+            ("Pair", [Ld, Rd], [], mx(ext(al), ext(ar)), mx(ext(gl), ext(gr))),
+            # comp: the middle type is the left child's target (= the right child's source)
+            ("Comp", [Ld, Rd], [l_t == r_s], ext(l_t) + mx(ext(al), ext(ar)), 1 + mx(ext(gl), ext(gr))),
+            # disconnect: frames of the left child's source and target types; right source is a component of the left target
+            ("Disconnect", [Ld, Rd], [z3.ULE(r_s, l_t)], ext(l_s) + ext(l_t) + mx(ext(al), ext(ar)), 2 + mx(ext(gl), ext(gr))),
+        ]
+        for (vn, fields, typing, acells, aframes) in glue_cases:
+            with section("L1.%s RedeemData::new" % vn, log):
+                inner = Adt("Inner", fields, vn)
+                outs = gmach.exec_fn(f_new, [arrow, inner])
+                pan = [c for (c, k, v) in outs if k == "panic"]
+                if pan:
+                    sol.add("L1.%s RedeemData::new never panics on well-typed children" % vn, hyp + typing + [z3.Or(pan)], vars_for_model=gv)
+                badc, badf = [], []
+                for (c, k, v) in outs:
+                    if k == "ret":
+                        nb = v.fields[4]
+                        badc.append(z3.And(c, z3.Not(inv(nb.fields[0], acells, mc))))
+                        badf.append(z3.And(c, z3.Not(inv(nb.fields[1], aframes, mf))))
+                sol.add("L1.%s RedeemData::new: cell bound built from the children's true type widths covers the peak" % vn,
+                        hyp + typing + [z3.Or(badc)], vars_for_model=gv)
+                sol.add("L1.%s RedeemData::new: frame bound covers the peak" % vn, hyp + typing + [z3.Or(badf)], vars_for_model=gv)
+        for fn_ in gmach.encoded:
+            if fn_ not in mach.encoded:
+                mach.encoded.append(fn_)
+        mach.modelled += gmach.modelled
 
+    with section("L1 RedeemData::new (all combinators)", log):
+        layer1()
     problems = []
     for q in sol.run_all():
         if q["verdict"] != "holds":
@@ -1117,43 +1179,44 @@ def run_c14(mir_text, log, tier):
     fams = {}
     d = z3.BitVec("d", 64)
     for fam, mod in (("Core", "core"), ("Elements", "elements"), ("Bitcoin", "bitcoin")):
-        pre = "init::%s::" % mod
+        with section("K14 %s: tables read from encode/fmt/source_ty/target_ty" % fam, log):
+            pre = "init::%s::" % mod
 
-        def fn(suffix, ret=None, params=None):
-            c = [g for g in funcs if g.name.startswith(pre) and g.name.endswith("::" + suffix)
-                 and (ret is None or g.ret.startswith(ret)) and (params is None or [t for _, t in g.params] == params)]
-            if len(c) != 1:
-                raise Unsupported("%s::%s: %d MIR bodies" % (fam, suffix, len(c)))
-            return c[0]
-        fmts = [g for g in funcs if g.name.startswith(pre) and g.name.endswith("::fmt") and g.params[0][1].startswith("&") and g.params[0][1].lstrip("&").split("::")[-1] == fam]
-        if len(fmts) != 2:
-            raise Unsupported("%s: expected Debug and Display fmt, found %d" % (fam, len(fmts)))
+            def fn(suffix, ret=None, params=None):
+                c = [g for g in funcs if g.name.startswith(pre) and g.name.endswith("::" + suffix)
+                     and (ret is None or g.ret.startswith(ret)) and (params is None or [t for _, t in g.params] == params)]
+                if len(c) != 1:
+                    raise Unsupported("%s::%s: %d MIR bodies" % (fam, suffix, len(c)))
+                return c[0]
+            fmts = [g for g in funcs if g.name.startswith(pre) and g.name.endswith("::fmt") and g.params[0][1].startswith("&") and g.params[0][1].lstrip("&").split("::")[-1] == fam]
+            if len(fmts) != 2:
+                raise Unsupported("%s: expected Debug and Display fmt, found %d" % (fam, len(fmts)))
 
-        def strs(g):
-            return table_of(mach, g, d, None, lambda v: v.data["s"].data["s"] if isinstance(v, Opaque) and v.tag == "wrote" else None)
-        t1, t2 = strs(fmts[0]), strs(fmts[1])
-        # Debug prints the variant identifier (CamelCase), Display the jet name (snake_case)
-        dbg, disp = (t1, t2) if all(re.match(r'^"[A-Z]', x or "") for x in t1.values()) else (t2, t1)
-        if not dbg or any(v is None for v in dbg.values()) or any(v is None for v in disp.values()):
-            raise Unsupported("%s: fmt tables incomplete" % fam)
-        variant = {k: fam + "::" + v.strip('"') for k, v in dbg.items()}
-        disc = {v: k for k, v in variant.items()}
-        enc = table_of(mach, fn("encode"), d, None, lambda v: (z3.simplify(v.data["n"]).as_long(), z3.simplify(v.data["len"]).as_long()))
-        src = table_of(mach, fn("source_ty"), d, None, lambda v: v)
-        tgt = table_of(mach, fn("target_ty"), d, None, lambda v: v)
+            def strs(g):
+                return table_of(mach, g, d, None, lambda v: v.data["s"].data["s"] if isinstance(v, Opaque) and v.tag == "wrote" else None)
+            t1, t2 = strs(fmts[0]), strs(fmts[1])
+            # Debug prints the variant identifier (CamelCase), Display the jet name (snake_case)
+            dbg, disp = (t1, t2) if all(re.match(r'^"[A-Z]', x or "") for x in t1.values()) else (t2, t1)
+            if not dbg or any(v is None for v in dbg.values()) or any(v is None for v in disp.values()):
+                raise Unsupported("%s: fmt tables incomplete" % fam)
+            variant = {k: fam + "::" + v.strip('"') for k, v in dbg.items()}
+            disc = {v: k for k, v in variant.items()}
+            enc = table_of(mach, fn("encode"), d, None, lambda v: (z3.simplify(v.data["n"]).as_long(), z3.simplify(v.data["len"]).as_long()))
+            src = table_of(mach, fn("source_ty"), d, None, lambda v: v)
+            tgt = table_of(mach, fn("target_ty"), d, None, lambda v: v)
 
-        def tyname(v):
-            x = v.fields[0]
-            while isinstance(x, Ref):
-                x = x.val
-            return x.data["s"] if isinstance(x, Opaque) else repr(x)
-        fams[fam] = {"variant": variant, "disc": disc, "enc": enc, "display": {k: v.strip('"') for k, v in disp.items()},
-                     "src": {k: tyname(v) for k, v in src.items()}, "tgt": {k: tyname(v) for k, v in tgt.items()},
-                     "decode": fn("decode"), "from_str": fn("from_str")}
-        n = len(variant)
-        if not (len(enc) == n and len(src) == n and len(tgt) == n and len(disp) == n):
-            raise Unsupported("%s: tables have different sizes" % fam)
-        log("  %s: %d variants, code lengths %d..%d bits" % (fam, n, min(l for _, l in enc.values()), max(l for _, l in enc.values())))
+            def tyname(v):
+                x = v.fields[0]
+                while isinstance(x, Ref):
+                    x = x.val
+                return x.data["s"] if isinstance(x, Opaque) else repr(x)
+            fams[fam] = {"variant": variant, "disc": disc, "enc": enc, "display": {k: v.strip('"') for k, v in disp.items()},
+                         "src": {k: tyname(v) for k, v in src.items()}, "tgt": {k: tyname(v) for k, v in tgt.items()},
+                         "decode": fn("decode"), "from_str": fn("from_str")}
+            n = len(variant)
+            if not (len(enc) == n and len(src) == n and len(tgt) == n and len(disp) == n):
+                raise Unsupported("%s: tables have different sizes" % fam)
+            log("  %s: %d variants, code lengths %d..%d bits" % (fam, n, min(l for _, l in enc.values()), max(l for _, l in enc.values())))
 
     def ite_table(tab, dd, width):
         r = z3.BitVecVal(0, width)
@@ -1171,126 +1234,130 @@ def run_c14(mir_text, log, tier):
         return strid.setdefault(x, len(strid) + 1)
 
     for fam, F in fams.items():
-        nvar = len(F["variant"])
-        mach.store = {}
-        outs = mach.exec_fn(F["decode"], [Ref(Opaque("stream"))])
-        stores = mach.out_stores
-        log("  %s::decode: %d paths" % (fam, len(outs)))
-        pan = [c for (c, k, v) in outs if k == "panic"]
-        dom = [z3.ULE(L, NBITS)]
-        # K14.0 totality: some outcome applies to every (bits, len); none is a panic/unreachable
-        sol.add("K14.0 %s::decode is total on every string of <= %d bits (no panic / unreachable)" % (fam, NBITS),
-                dom + ([z3.Or(pan)] if pan else [z3.BoolVal(False)]), vars_for_model=[bits, L])
-        sol.add("K14.0b %s::decode: every string takes some path" % fam,
-                dom + [z3.Not(z3.Or([c for (c, k, v) in outs]))], vars_for_model=[bits, L])
-        # K14.1 decode -> encode
-        bad1, bad_err = [], []
-        for (c, k, v), st in zip(outs, stores):
-            if k != "ret":
-                continue
-            used = st.get("pos", 0)
-            if v.variant == "Ok":
-                vn = "::".join(v.fields[0].name.split("::")[-2:])
-                if vn not in F["disc"]:
-                    raise Unsupported("decode returns unknown variant %s" % vn)
-                n_, ln = F["enc"][F["disc"][vn]]
-                mask = ((1 << ln) - 1) << (NBITS - ln)
-                same = z3.And(ln == used, (bits & mask) == code_bits(n_, ln)) if ln <= NBITS else z3.BoolVal(False)
-                bad1.append(z3.And(c, z3.Not(same)))
-            else:
-                en = v.fields[0].name
-                if en.endswith("EndOfStream"):
-                    # only when the stream really ended at the cursor
-                    bad_err.append(z3.And(c, z3.UGT(L, used)))
-                elif not en.endswith("InvalidJet"):
-                    raise Unsupported("decode returns error %s" % en)
-        sol.add("K14.1 %s: a decoded jet re-encodes to exactly the consumed bits (codes injective and prefix-free)" % fam,
-                dom + [z3.Or(bad1)], vars_for_model=[bits, L])
-        sol.add("K14.1b %s: EndOfStream only when the bits ran out" % fam, dom + [z3.Or(bad_err)] if bad_err else [z3.BoolVal(False)],
-                vars_for_model=[bits, L])
-        # K14.2 encode -> decode: symbolic discriminant, garbage after the code
-        dd = z3.BitVec("dj", 64)
-        nn = ite_table({k: code_bits(n_, ln) for k, (n_, ln) in F["enc"].items()}, dd, NBITS)
-        ll = ite_table({k: ln for k, (n_, ln) in F["enc"].items()}, dd, 8)
-        garbage = z3.BitVec("garbage", NBITS)
-        maskd = ite_table({k: ((1 << ln) - 1) << (NBITS - ln) for k, (n_, ln) in F["enc"].items()}, dd, NBITS)
-        link = [z3.ULT(dd, nvar), bits == (nn | (garbage & ~maskd)), L == NBITS]
-        bad2 = []
-        for (c, k, v), st in zip(outs, stores):
-            if k != "ret":
-                continue
-            if v.variant == "Ok":
-                dv = F["disc"]["::".join(v.fields[0].name.split("::")[-2:])]
-                bad2.append(z3.And(c, z3.Not(z3.And(dd == dv, ll == st.get("pos", 0)))))
-            else:
-                bad2.append(c)
-        sol.add("K14.2 %s: every jet's code decodes back to it, consuming exactly the code" % fam, link + [z3.Or(bad2)],
-                vars_for_model=[dd, garbage])
-        # K14.4 names: parse(display(j)) == j
-        sv = z3.Int("s_id")
-        saved_models = dict(mach.models)
+        with section("K14.0-K14.4 %s::{decode,encode,from_str,fmt}" % fam, log):
+            nvar = len(F["variant"])
+            mach.store = {}
+            outs = mach.exec_fn(F["decode"], [Ref(Opaque("stream"))])
+            stores = mach.out_stores
+            log("  %s::decode: %d paths" % (fam, len(outs)))
+            pan = [c for (c, k, v) in outs if k == "panic"]
+            dom = [z3.ULE(L, NBITS)]
+            # K14.0 totality: some outcome applies to every (bits, len); none is a panic/unreachable
+            sol.add("K14.0 %s::decode is total on every string of <= %d bits (no panic / unreachable)" % (fam, NBITS),
+                    dom + ([z3.Or(pan)] if pan else [z3.BoolVal(False)]), vars_for_model=[bits, L])
+            sol.add("K14.0b %s::decode: every string takes some path" % fam,
+                    dom + [z3.Not(z3.Or([c for (c, k, v) in outs]))], vars_for_model=[bits, L])
+            # K14.1 decode -> encode
+            bad1, bad_err = [], []
+            for (c, k, v), st in zip(outs, stores):
+                if k != "ret":
+                    continue
+                used = st.get("pos", 0)
+                if v.variant == "Ok":
+                    vn = "::".join(v.fields[0].name.split("::")[-2:])
+                    if vn not in F["disc"]:
+                        raise Unsupported("decode returns unknown variant %s" % vn)
+                    n_, ln = F["enc"][F["disc"][vn]]
+                    mask = ((1 << ln) - 1) << (NBITS - ln)
+                    same = z3.And(ln == used, (bits & mask) == code_bits(n_, ln)) if ln <= NBITS else z3.BoolVal(False)
+                    bad1.append(z3.And(c, z3.Not(same)))
+                else:
+                    en = v.fields[0].name
+                    if en.endswith("EndOfStream"):
+                        # only when the stream really ended at the cursor
+                        bad_err.append(z3.And(c, z3.UGT(L, used)))
+                    elif not en.endswith("InvalidJet"):
+                        raise Unsupported("decode returns error %s" % en)
+            sol.add("K14.1 %s: a decoded jet re-encodes to exactly the consumed bits (codes injective and prefix-free)" % fam,
+                    dom + [z3.Or(bad1)], vars_for_model=[bits, L])
+            sol.add("K14.1b %s: EndOfStream only when the bits ran out" % fam, dom + [z3.Or(bad_err)] if bad_err else [z3.BoolVal(False)],
+                    vars_for_model=[bits, L])
+            # K14.2 encode -> decode: symbolic discriminant, garbage after the code
+            dd = z3.BitVec("dj", 64)
+            nn = ite_table({k: code_bits(n_, ln) for k, (n_, ln) in F["enc"].items()}, dd, NBITS)
+            ll = ite_table({k: ln for k, (n_, ln) in F["enc"].items()}, dd, 8)
+            garbage = z3.BitVec("garbage", NBITS)
+            maskd = ite_table({k: ((1 << ln) - 1) << (NBITS - ln) for k, (n_, ln) in F["enc"].items()}, dd, NBITS)
+            link = [z3.ULT(dd, nvar), bits == (nn | (garbage & ~maskd)), L == NBITS]
+            bad2 = []
+            for (c, k, v), st in zip(outs, stores):
+                if k != "ret":
+                    continue
+                if v.variant == "Ok":
+                    dv = F["disc"]["::".join(v.fields[0].name.split("::")[-2:])]
+                    bad2.append(z3.And(c, z3.Not(z3.And(dd == dv, ll == st.get("pos", 0)))))
+                else:
+                    bad2.append(c)
+            sol.add("K14.2 %s: every jet's code decodes back to it, consuming exactly the code" % fam, link + [z3.Or(bad2)],
+                    vars_for_model=[dd, garbage])
+            # K14.4 names: parse(display(j)) == j
+            sv = z3.Int("s_id")
+            saved_models = dict(mach.models)
 
-        def str_eq(mach_, name, args):
-            a, b = args
-            def ident(x):
-                while isinstance(x, Ref):
-                    x = x.val
-                if isinstance(x, Opaque) and x.tag == "str":
-                    return z3.IntVal(sid(x.data["s"].strip('"')))
-                if isinstance(x, Opaque) and x.tag == "symstr":
-                    return sv
-                raise Unsupported("str eq on %r" % (x,))
-            return [(M.T(), "ret", ident(a) == ident(b))]
-        mach.models = dict(saved_models)
-        mach.models[r"^<str as PartialEq>::eq$"] = str_eq
-        mach.models[r"^<str as ToOwned>::to_owned$"] = lambda m_, n_, a_: [(M.T(), "ret", Opaque("string"))]
-        outs_p = mach.exec_fn(F["from_str"], [Ref(Opaque("symstr"))])
-        mach.models = saved_models
-        dd2 = z3.BitVec("dn", 64)
-        name_of = z3.IntVal(0)
-        for k, nm in F["display"].items():
-            name_of = z3.If(dd2 == k, z3.IntVal(sid(nm)), name_of)
-        bad4 = []
-        for (c, k, v) in outs_p:
-            if k == "panic":
-                bad4.append(c)
-            elif isinstance(v, Adt) and v.variant == "Ok":
-                bad4.append(z3.And(c, dd2 != F["disc"]["::".join(v.fields[0].name.split("::")[-2:])]))
-            else:
-                bad4.append(c)
-        sol.add("K14.4 %s: every jet's name parses back to it" % fam, [z3.ULT(dd2, nvar), sv == name_of, z3.Or(bad4)],
-                vars_for_model=[dd2])
-        # distinct display names
-        names = list(F["display"].values())
-        if len(set(names)) != len(names):
-            # two jets print the same name: K14.4 above is then satisfiable (one of them cannot parse back)
-            log("  %s: %d display names are shared by several jets" % (fam, len(names) - len(set(names))))
-        F["outs"], F["stores"] = outs, stores
+            def str_eq(mach_, name, args):
+                a, b = args
+                def ident(x):
+                    while isinstance(x, Ref):
+                        x = x.val
+                    if isinstance(x, Opaque) and x.tag == "str":
+                        return z3.IntVal(sid(x.data["s"].strip('"')))
+                    if isinstance(x, Opaque) and x.tag == "symstr":
+                        return sv
+                    raise Unsupported("str eq on %r" % (x,))
+                return [(M.T(), "ret", ident(a) == ident(b))]
+            mach.models = dict(saved_models)
+            mach.models[r"^<str as PartialEq>::eq$"] = str_eq
+            mach.models[r"^<str as ToOwned>::to_owned$"] = lambda m_, n_, a_: [(M.T(), "ret", Opaque("string"))]
+            outs_p = mach.exec_fn(F["from_str"], [Ref(Opaque("symstr"))])
+            mach.models = saved_models
+            dd2 = z3.BitVec("dn", 64)
+            name_of = z3.IntVal(0)
+            for k, nm in F["display"].items():
+                name_of = z3.If(dd2 == k, z3.IntVal(sid(nm)), name_of)
+            bad4 = []
+            for (c, k, v) in outs_p:
+                if k == "panic":
+                    bad4.append(c)
+                elif isinstance(v, Adt) and v.variant == "Ok":
+                    bad4.append(z3.And(c, dd2 != F["disc"]["::".join(v.fields[0].name.split("::")[-2:])]))
+                else:
+                    bad4.append(c)
+            sol.add("K14.4 %s: every jet's name parses back to it" % fam, [z3.ULT(dd2, nvar), sv == name_of, z3.Or(bad4)],
+                    vars_for_model=[dd2])
+            # distinct display names
+            names = list(F["display"].values())
+            if len(set(names)) != len(names):
+                # two jets print the same name: K14.4 above is then satisfiable (one of them cannot parse back)
+                log("  %s: %d display names are shared by several jets" % (fam, len(names) - len(set(names))))
+            F["outs"], F["stores"] = outs, stores
 
     # K14.3 Core vs Elements namesakes behind the prefix bit 0
-    C, E = fams["Core"], fams["Elements"]
-    dc = z3.BitVec("dc", 64)
-    ncore = len(C["variant"])
-    code_c = ite_table({k: code_bits(n_, ln) for k, (n_, ln) in C["enc"].items()}, dc, NBITS)
-    len_c = ite_table({k: ln for k, (n_, ln) in C["enc"].items()}, dc, 8)
-    link = [z3.ULT(dc, ncore), bits == z3.LShR(code_c, 1), L == NBITS]
-    name_c = ite_table({k: sid("name:" + v) for k, v in C["display"].items()}, dc, 32)
-    src_c = ite_table({k: sid("ty:" + v) for k, v in C["src"].items()}, dc, 32)
-    tgt_c = ite_table({k: sid("ty:" + v) for k, v in C["tgt"].items()}, dc, 32)
-    bad3 = []
-    for (c, k, v), st in zip(E["outs"], E["stores"]):
-        if k != "ret":
-            continue
-        if v.variant == "Ok":
-            de = E["disc"]["::".join(v.fields[0].name.split("::")[-2:])]
-            ok = z3.And(len_c + 1 == st.get("pos", 0),
-                        name_c == sid("name:" + E["display"][de]),
-                        src_c == sid("ty:" + E["src"][de]), tgt_c == sid("ty:" + E["tgt"][de]))
-            bad3.append(z3.And(c, z3.Not(ok)))
-        else:
-            bad3.append(c)
-    sol.add("K14.3 each Core jet, behind the family prefix bit, is an Elements jet with the same name and types",
-            link + [z3.Or(bad3)], vars_for_model=[dc])
+    with section("K14.3 Core jets vs their Elements namesakes", log):
+        if "Core" not in fams or "Elements" not in fams:
+            raise Unsupported("tables of Core or Elements are not available")
+        C, E = fams["Core"], fams["Elements"]
+        dc = z3.BitVec("dc", 64)
+        ncore = len(C["variant"])
+        code_c = ite_table({k: code_bits(n_, ln) for k, (n_, ln) in C["enc"].items()}, dc, NBITS)
+        len_c = ite_table({k: ln for k, (n_, ln) in C["enc"].items()}, dc, 8)
+        link = [z3.ULT(dc, ncore), bits == z3.LShR(code_c, 1), L == NBITS]
+        name_c = ite_table({k: sid("name:" + v) for k, v in C["display"].items()}, dc, 32)
+        src_c = ite_table({k: sid("ty:" + v) for k, v in C["src"].items()}, dc, 32)
+        tgt_c = ite_table({k: sid("ty:" + v) for k, v in C["tgt"].items()}, dc, 32)
+        bad3 = []
+        for (c, k, v), st in zip(E["outs"], E["stores"]):
+            if k != "ret":
+                continue
+            if v.variant == "Ok":
+                de = E["disc"]["::".join(v.fields[0].name.split("::")[-2:])]
+                ok = z3.And(len_c + 1 == st.get("pos", 0),
+                            name_c == sid("name:" + E["display"][de]),
+                            src_c == sid("ty:" + E["src"][de]), tgt_c == sid("ty:" + E["tgt"][de]))
+                bad3.append(z3.And(c, z3.Not(ok)))
+            else:
+                bad3.append(c)
+        sol.add("K14.3 each Core jet, behind the family prefix bit, is an Elements jet with the same name and types",
+                link + [z3.Or(bad3)], vars_for_model=[dc])
     problems = []
     for q in sol.run_all():
         if q["verdict"] != "holds":
